@@ -28,7 +28,7 @@ from geometer.transformation import TransformationTensor, rotation, translation
 from geometer.utils import det, distinct, is_multiple, matmul, matvec
 
 if TYPE_CHECKING:
-    from typing_extensions import Unpack
+    from typing_extensions import Self, Unpack
 
     from geometer.utils.typing import NDArrayParameters, TensorIndex
 
@@ -115,6 +115,13 @@ class PolytopeTensor(PointLikeTensor, ABC):
 
     def __sub__(self, other: Tensor | npt.ArrayLike) -> Tensor:
         return self + (-other)
+
+    def __apply__(self, transformation: TransformationTensor) -> Self:
+        if transformation.free_indices > 0:
+            # the collection axes of the transformations pair with collection axes of the polytope(s), not with the vertex axes
+            for _ in range(max(self.pdim - 1, 1)):
+                transformation = transformation.expand_dims(transformation.free_indices)
+        return super().__apply__(transformation)
 
     @staticmethod
     def _cast_polytope(tensor: Tensor, pdim: int) -> PolytopeTensor:
